@@ -320,12 +320,22 @@ func childC15(args []string) int {
 	res := c15childResult{Goroutines: G, Procs: runtime.GOMAXPROCS(0)}
 	res.FPInit = fingerprintRegistries()
 	work := c15workList()
+	if os.Getenv("VERIF_C15_COLD_ONLY") != "" {
+		// a short-lived process that only does first uses: the one-per-regime items
+		var w2 []c15work
+		for _, w := range work {
+			if strings.HasPrefix(w.Name, "regime-no-issue-date:") || (strings.HasPrefix(w.Name, "regime-addon:") && strings.HasSuffix(w.Name, ":")) {
+				w2 = append(w2, w)
+			}
+		}
+		work = w2
+	}
 	res.WorkItems = len(work)
 	// cold pass: before anything has been calculated in this process, several
 	// goroutines run the same items at the same moment, so that whatever is set up
 	// on first use (per regime, addon, currency, time zone) is set up under contention
 	coldG := G
-	if coldG > 4 {
+	if coldG > 4 && os.Getenv("VERIF_C15_COLD_ONLY") == "" {
 		coldG = 4
 	}
 	cold := make([][][]string, coldG)
@@ -671,6 +681,49 @@ func runC15(c *Ctx) {
 		}
 		if c.R.WantSample() {
 			c.R.Sample(map[string]any{"gomaxprocs": p, "goroutines": G, "pipelines": res.Pipelines, "race_reports": len(parseRaceLogs(logBase + "*"))})
+		}
+	}
+	// cold-start children: processes that do nothing but first uses, all goroutines
+	// released together over the one-per-regime documents. The race detector keeps
+	// a bounded history per address, so a first use is best observed when the
+	// other accesses follow at once; several short processes give several chances.
+	for k := 0; k < c.N(6, 40); k++ {
+		resFile := filepath.Join(tmp, fmt.Sprintf("cold-%d.json", k))
+		logBase := filepath.Join(tmp, fmt.Sprintf("race-cold-%d.log", k))
+		p := []int{16, 4, 8, 2}[k%4]
+		cmd := exec.Command(raceBin, "child", "C15", "stress", "16", "0", fmt.Sprint(c.Seed+int64(1000+k)), resFile)
+		cmd.Env = append(os.Environ(), fmt.Sprintf("GOMAXPROCS=%d", p), "VERIF_C15_COLD_ONLY=1", "GORACE=halt_on_error=0 log_path="+logBase)
+		var eb bytes.Buffer
+		cmd.Stderr, cmd.Stdout = &eb, &eb
+		_ = runWithTimeout(cmd, 10*time.Minute)
+		rb, rerr := os.ReadFile(resFile)
+		var res c15childResult
+		if rerr != nil || json.Unmarshal(rb, &res) != nil {
+			out := eb.String()
+			if strings.Contains(out, "fatal error: concurrent map") {
+				c.R.Fail("fatal:concurrent-map-access", "a cold-start process died: "+trunc(out), map[string]any{"gomaxprocs": p, "output": trunc(out)})
+			} else {
+				c.R.Inconclusive(fmt.Sprintf("cold-child-failed:%s", trunc(out)))
+			}
+			continue
+		}
+		c.R.Cases(res.Pipelines, res.Pipelines)
+		c.R.Count("cold_start_processes", 1)
+		c.R.Count("cold_start_pipelines", res.Pipelines)
+		for _, d := range res.Divergences {
+			c.R.Fail("diverges:"+strings.SplitN(fmt.Sprint(d["difference"]), ":", 2)[0], fmt.Sprintf("cold-start process: %s: %s", d["item"], d["difference"]), d)
+		}
+		for _, rr := range parseRaceLogs(logBase + "*") {
+			if rr.Harness {
+				c.R.Inconclusive("harness-race")
+				continue
+			}
+			key := rr.A + "|" + rr.B
+			c.R.Count("race_reports", 1)
+			if !seenRaces[key] {
+				seenRaces[key] = true
+				c.R.Fail("race:"+key, fmt.Sprintf("DATA RACE between %s and %s (cold-start process, GOMAXPROCS=%d)", rr.A, rr.B, p), map[string]any{"report": rr.Text})
+			}
 		}
 	}
 	c15bulk(c, tmp)
